@@ -140,6 +140,25 @@ pub fn run(ctx: &Ctx) -> Result<(), String> {
                 nontrivial.fetch_add(1, Relaxed);
             }
         }
+        // (3b) very many update() calls for one message: byte by byte, and runs of empty chunks in front
+        // of / inside a message (counts around 2^8 and 2^16)
+        for n in [255usize, 256, 257, 258, 300, 511, 512, 513, 1000, 4096, 65535, 65536, 65537] {
+            let m = canonical_message(n.min(4096));
+            // n chunks in all: the message byte by byte, preceded by empty chunks when n > 4096
+            let mut chunks: Vec<&[u8]> = vec![&m[..0]; n.saturating_sub(m.len())];
+            chunks.extend(m.chunks(1));
+            let got = sign_chunks(&mut signer, &chunks);
+            check_sig(ctx, &seed, &m, got, json!({"kind":"many-chunks","chunks":n,"len":m.len(),"shape":"empty chunks then byte by byte"}));
+            // a short message around a run of n empty chunks
+            let short = canonical_message(40);
+            let mut chunks: Vec<&[u8]> = vec![&short[..17]];
+            chunks.extend(std::iter::repeat(&short[..0]).take(n));
+            chunks.push(&short[17..]);
+            let got = sign_chunks(&mut signer, &chunks);
+            check_sig(ctx, &seed, &short, got, json!({"kind":"many-chunks","chunks":n + 2,"len":40,"shape":"17 bytes, empty chunks, 23 bytes"}));
+            evals.fetch_add(2, Relaxed);
+            nontrivial.fetch_add(2, Relaxed);
+        }
         // (4) all message sequences of length <= 4 over the 5-message alphabet, each on a fresh signer
         for l in 1..=4u32 {
             for mut idx in 0..5usize.pow(l) {
@@ -251,12 +270,22 @@ pub fn run(ctx: &Ctx) -> Result<(), String> {
                     v.push(m.chunks(1000).collect());
                     v.push(m.chunks(7).collect());
                 }
+                // very many update() calls: byte by byte, and a run of empty chunks inside the message
+                if [255usize, 256, 257, 258, 511, 512, 513, 1000, 4096].contains(&len) {
+                    v.push(m.chunks(1).collect());
+                    for empties in [256usize, 257, 65536, 65537] {
+                        let mut c: Vec<&[u8]> = vec![&m[..100]];
+                        c.extend(std::iter::repeat(&m[..0]).take(empties));
+                        c.push(&m[100..]);
+                        v.push(c);
+                    }
+                }
                 v
             };
             for (ci, ch) in chunkings.iter().enumerate() {
                 evals.fetch_add(1, Relaxed);
                 if !verify_chunked(&pk, ch, &sig) {
-                    ctx.violation("rejects-valid", "verifier", "length", json!({"kind":"verify-length","seed":hex(&seed),"len":len,"chunking":ci,"chunk_lens":ch.iter().map(|c| c.len()).collect::<Vec<_>>(),"direct":true,"subject":false}));
+                    ctx.violation("rejects-valid", "verifier", "length", json!({"kind":"verify-length","seed":hex(&seed),"len":len,"chunking":ci,"chunks":ch.len(),"chunk_lens":ch.iter().take(64).map(|c| c.len()).collect::<Vec<_>>(),"direct":true,"subject":false}));
                 }
             }
             let mut wrong = |what: &str, msg: &[u8], sig: &[u8], extra: Value| {
@@ -391,7 +420,7 @@ pub fn run(ctx: &Ctx) -> Result<(), String> {
     ctx.cov("sampled_seeds", json!(seeds.iter().filter(|s| s.1).count()));
     ctx.cov("exhaustive", json!(true));
     ctx.cov("bound", json!({"message_length_max":4096,"chunkings_n_max":maxn,"sequence_len_max":4,"sequence_alphabet":5,"long_sequence":32}));
-    ctx.cov("rule", json!(format!("per seed of a structured alphabet ({} seeds: zero, ff, RFC 8032 vectors, single-bit, single-byte-value, seeded random): every message length 0..=4096 signed back-to-back on one signer; two-chunk splits at 1/1023/1024/1025/len-1; all 2^(n-1) chunkings for n<={}; all sequences of length<=4 over 5 messages {{0,1,64,1024,4096 bytes}} on fresh signers; one 32-message sequence. Oracle: signature bytes == ed25519-dalek one-shot signature of that message alone. Verifier: valid triples and every single-bit corruption of message/signature/key vs direct verification (panic == reject); and for every message length 0..=4096 in 5-7 chunkings: the valid triple, a flipped bit in the first/middle/last byte, the signature of every 256-aligned proper prefix and of len-1, the message extended by one byte; and every sequence (length <= 4, thorough 5) of update/verify(valid)/verify(corrupted)/verify(signature of the earlier message) on ONE verifier object, every answer compared with direct verification of the message fed so far; every interleaving (length <= 5, thorough 6) of update/sign on TWO signer objects alive on one thread (same and different seeds; one may be dropped and re-created). Non-trivial = a case with >=2 chunks or >=2 messages on one signer, or a corrupted triple.", seeds.len(), maxn)));
+    ctx.cov("rule", json!(format!("per seed of a structured alphabet ({} seeds: zero, ff, RFC 8032 vectors, single-bit, single-byte-value, seeded random): every message length 0..=4096 signed back-to-back on one signer; two-chunk splits at 1/1023/1024/1025/len-1; all 2^(n-1) chunkings for n<={}; one message in 255..65537 update() calls (byte by byte, runs of empty chunks in front of and inside it); all sequences of length<=4 over 5 messages {{0,1,64,1024,4096 bytes}} on fresh signers; one 32-message sequence. Oracle: signature bytes == ed25519-dalek one-shot signature of that message alone. Verifier: valid triples and every single-bit corruption of message/signature/key vs direct verification (panic == reject); and for every message length 0..=4096 in 5-7 chunkings: the valid triple, a flipped bit in the first/middle/last byte, the signature of every 256-aligned proper prefix and of len-1, the message extended by one byte; and every sequence (length <= 4, thorough 5) of update/verify(valid)/verify(corrupted)/verify(signature of the earlier message) on ONE verifier object, every answer compared with direct verification of the message fed so far; every interleaving (length <= 5, thorough 6) of update/sign on TWO signer objects alive on one thread (same and different seeds; one may be dropped and re-created). Non-trivial = a case with >=2 chunks or >=2 messages on one signer, or a corrupted triple.", seeds.len(), maxn)));
     ctx.sample(json!({"kind":"chunking","n":5,"mask":"0b1010","chunks":[2,2,1]}));
     ctx.sample(json!({"kind":"sequence","seq":[4,0,2,1],"lengths":[4096,0,64,1]}));
     ctx.sample(json!({"kind":"verify","corruption":"signature-bit","bit":255}));
